@@ -115,9 +115,11 @@ def main(argv):
         key = {"form": form_of(sel), "labels": labels}
         py = pysel(sel) if sel["k"] != "sub" else (pysel(sel["base"]), (pyidx(sel["a"]), pyidx(sel["b"])))
         try:
-            arr = plate[py].get() if sel["k"] != "sub" else plate[py[0]][py[1]].get()
+            slc = plate[py] if sel["k"] != "sub" else plate[py[0]][py[1]]
+            arr = slc.get()
             got = [c.name for c in arr.flatten()]
             shape = list(arr.shape)
+            attr_shape, attr_size = list(slc.shape), slc.size        # the selection's own account of its shape and size
             exc = None
         except Exception as e:
             exc = e
@@ -135,6 +137,8 @@ def main(argv):
             report("wrong_wells", key, f"plate[{py!r}] selected {got}, specified {exp}", ev)
         elif shape != den["shape"] and len(exp) > 0:
             report("wrong_shape", key, f"plate[{py!r}] has shape {shape}, specified {den['shape']}", ev)
+        elif attr_size != len(exp) or (attr_shape != den["shape"] and len(exp) > 0):
+            report("shape_attribute", key, f"plate[{py!r}].shape = {attr_shape}, .size = {attr_size}; the selection is {den['shape']} with {len(exp)} wells", ev)
         # (once per spelling form and selected set: the selection itself was compared for every selector above)
         if 0 < len(exp) == len(set(exp)) and nr * nc <= 12 and (json.dumps(key, sort_keys=True), tuple(exp)) not in done07:
             done07.add((json.dumps(key, sort_keys=True), tuple(exp)))
